@@ -168,9 +168,10 @@ func (am *AppMapper) mapResponse(stmt []*sysl.Statement, appName string) map[str
 		}
 
 		if strings.Contains(stmt[i].GetRet().Payload, "<:") {
-			returnStatement := strings.Split(stmt[i].GetRet().Payload, " <: ")
-			returnName = returnStatement[0]
-			returnType = am.mapReturnType(returnStatement[1], appName)
+			// `ok <: Type`, with or without blanks around the `<:`
+			returnStatement := strings.SplitN(stmt[i].GetRet().Payload, "<:", 2)
+			returnName = strings.TrimSpace(returnStatement[0])
+			returnType = am.mapReturnType(strings.TrimSpace(returnStatement[1]), appName)
 		} else {
 			returnType = am.mapReturnType(stmt[i].GetRet().Payload, appName)
 			// Default return name of 200
@@ -515,8 +516,13 @@ func (am *AppMapper) MapType(t *sysl.Type) *Type {
 
 // Table refs must be handled differently as elements of the path are [TableName, Fieldname]
 func convertTableRef(tableRef *sysl.Type) (appName string, typeName string) {
-	appName = tableRef.GetTypeRef().GetContext().GetAppname().GetPart()[0]
-	typeName = tableRef.GetTypeRef().GetRef().GetPath()[0]
+	// an inline tuple field carries a reference without a context
+	if parts := tableRef.GetTypeRef().GetContext().GetAppname().GetPart(); len(parts) > 0 {
+		appName = parts[0]
+	}
+	if path := tableRef.GetTypeRef().GetRef().GetPath(); len(path) > 0 {
+		typeName = path[0]
+	}
 	return appName, typeName
 }
 
